@@ -163,6 +163,7 @@ def pcapng_capture(draw, messages):
     f = io.BytesIO()
     w = dpkt.pcapng.Writer(f, linktype=dpkt.pcap.DLT_EN10MB if ethernet else dpkt.pcap.DLT_RAW)
     noise = {"runts": 0, "trailers": 0, "ethernet": ethernet}
+    payloads = []  # every TCP payload written, in order (runts included)
     ts = 1.0
     for i, m in enumerate(messages):
         while draw(st.integers(0, 4)) == 0:
@@ -172,6 +173,7 @@ def pcapng_capture(draw, messages):
                 # a runt whose own "size field" claims exactly its length (must be skipped all the same)
                 runt = b"\x80\x01" + n.to_bytes(4, "big") + runt[6:]
             w.writepkt(_frame(runt, ethernet), ts=ts)
+            payloads.append(runt)
             ts += 0.001
             noise["runts"] += 1
         payload = m
@@ -179,5 +181,15 @@ def pcapng_capture(draw, messages):
             payload = m + draw(st.one_of(st.sampled_from([b"\x00\x00\x00\x00", b"\x00\x00\x00\x01"]), st.binary(min_size=1, max_size=8)))
             noise["trailers"] += 1
         w.writepkt(_frame(payload, ethernet), ts=ts)
+        payloads.append(payload)
         ts += 0.001
+    noise["carried"] = b"".join(pcapng_trim(p) for p in payloads)
     return f.getvalue(), noise
+
+
+def pcapng_trim(payload):
+    """What a capture carries for one TCP payload: nothing for runts (< 10 bytes), else the payload cut to its own size field."""
+    if len(payload) < 10:
+        return b""
+    size = int.from_bytes(payload[2:6], "big")
+    return payload[:size] if size != len(payload) else payload
